@@ -87,8 +87,11 @@ def Framer.finish (f : Framer) (buf : Bytes) : Except Err Bytes :=
       match c.enc (buf.drop f.headSize) with
       | .error _ => .error .codec
       | .ok z =>
-        let buf' := buf.take f.headSize ++ z
-        .ok (f.setLength buf' (buf'.length - f.headSize))
+        -- after the repair of KF-C18-2: the COMPRESSED frame is compared with the limit, too
+        if f.headSize + z.length > maxFrameSize then .error .tooBig
+        else
+          let buf' := buf.take f.headSize ++ z
+          .ok (f.setLength buf' (buf'.length - f.headSize))
   else .ok (f.setLength buf (buf.length - f.headSize))
 
 /-- a frame builder reduced to what matters here: header flags, opcode, stream, body bytes -/
@@ -188,7 +191,7 @@ def finishLen (hs bufLen : Nat) (flag : Bool) (enc : Option (Except Unit Nat)) :
     match enc with
     | none => .error .panic
     | some (.error _) => .error .codec
-    | some (.ok zl) => .ok (hs + zl)
+    | some (.ok zl) => if hs + zl > maxFrameSize then .error .tooBig else .ok (hs + zl)
   else .ok bufLen
 
 /-- length of the body `readFrame` leaves in the framer; `dec` = what Decode answered, as a length -/
